@@ -219,9 +219,7 @@ Fixpoint filter_nests (J : jar) (T : table) (present created : list str) : table
         let '(F, cr) := filter_nests J T' present' created' in
         (if kind_rule J n then n :: F else F, cr)
   end.
-Fixpoint dedup (l : list str) : list str :=
-  match l with [] => [] | x :: l' => x :: filter (fun y => negb (str_eqb y x)) (dedup l') end.
-Definition jar_classes (J : jar) : list str := dedup (map fst J).
+Definition jar_classes (J : jar) : list str := map fst J.
 Definition this_nests (J : jar) (T : table) : table := fst (filter_nests J T (jar_classes J) []).
 Definition new_classes (J : jar) (T : table) : list str := snd (filter_nests J T (jar_classes J) []).
 
@@ -261,12 +259,15 @@ Definition synth_inner (r : str -> str) (n : nest) : inner_entry :=
    match n_kind n with KInner => Some (r (n_encl n)) | _ => None end,
    match n_kind n with KAnon => None | _ => Some (strip_local_class_prefix (n_inner n)) end,
    n_access n).
-Definition synth_encl (r : str -> str) (n : nest) : res (option encl_entry) :=
+(* descriptors are only touched when nest_jar is asked to remap *)
+Definition jar_desc (remap : bool) (r : str -> str) (d : str) : res str :=
+  if remap then map_desc r d else Ok d.
+Definition synth_encl (remap : bool) (r : str -> str) (n : nest) : res (option encl_entry) :=
   match n_kind n with
   | KInner => Ok None
   | _ => match n_meth n with
          | None => Ok (Some (r (n_encl n), None))
-         | Some (mn, md) => match map_desc r md with
+         | Some (mn, md) => match jar_desc remap r md with
                             | Ok md' => Ok (Some (r (n_encl n), Some (mn, md')))
                             | Err => Err
                             end
@@ -274,10 +275,10 @@ Definition synth_encl (r : str -> str) (n : nest) : res (option encl_entry) :=
   end.
 (* one output class: entry/class name, the appended InnerClasses entry, the EnclosingMethod set *)
 Definition out_class := (str * option inner_entry * option encl_entry)%type.
-Definition nest_class (F : table) (r : str -> str) (c : str) : res out_class :=
+Definition nest_class (remap : bool) (F : table) (r : str -> str) (c : str) : res out_class :=
   match find_nest F c with
   | None => Ok (r c, None, None)
-  | Some n => match synth_encl r n with
+  | Some n => match synth_encl remap r n with
               | Ok e => Ok (r c, Some (synth_inner r n), e)
               | Err => Err
               end
@@ -291,7 +292,7 @@ Definition nest_jar (remap : bool) (J : jar) (T : table) : res (list out_class) 
       match jar_map F with
       | Err => Err
       | Ok m => let r := if remap then map_class m else (fun c => c) in
-                mapM (nest_class F r) (new_classes J T ++ map fst J)
+                mapM (nest_class remap F r) (new_classes J T ++ map fst J)
       end
   end.
 
@@ -540,8 +541,6 @@ Definition parse_access (s : str) : res N :=
 (* InnerClassFlags::from(u16) keeps these bits *)
 Definition access_mask : N := 30239.   (* 0x761F *)
 
-Definition is_valid_method_desc (s : str) : bool := is_ok (parse_method s).
-
 Definition read_line (line : str) : res nest :=
   match split_on cTAB line with
   | [cls; encl; mname; mdesc; inner; acc] =>
@@ -553,7 +552,7 @@ Definition read_line (line : str) : res nest :=
         else if negb (is_valid_obj_class_name encl) then Err
         else
           match (if is_nil mname || is_nil mdesc then Ok None
-                 else if is_valid_method_name mname && is_valid_method_desc mdesc then Ok (Some (mname, mdesc))
+                 else if is_valid_method_name mname then Ok (Some (mname, mdesc))   (* MethodDescriptor::check_valid accepts everything *)
                  else Err) with
           | Err => Err
           | Ok meth =>
